@@ -1,9 +1,5 @@
 """C07 -- SMT-LIB export is well-formed and denotes the same thing as the formula."""
-import ast
-import re
-
-from ..common import (get_repo, get_ops, get_tables, short, norm, CFG, normal_only, method_loc,
-                      calls_in, attr_tail, parents, names_in, dispatch_rule, handler_funcs)
+from ..common import get_repo, get_ops, get_tables, dispatch_rule
 from ..tables import smtlib as T
 
 TREE = "pysmt.smtlib.printers.SmtPrinter"
@@ -11,107 +7,31 @@ DAGP = "pysmt.smtlib.printers.SmtDagPrinter"
 CMD = "pysmt.smtlib.script.SmtLibCommand"
 
 EXPLANATION = (
-    "Static analysis of pysmt/smtlib/printers.py and script.py: for both printers the function "
-    "symbol, arity source and index order written for every operator equal the SMT-LIB reference "
-    "table (R1, templates extracted from the handlers); the two printers agree operator by operator "
-    "(R2); constants: sign handling of Int/Real, #b padding, string quote doubling (R3); "
-    "smtlibscript_from_formula emits set-logic, then every sort declaration, then every symbol "
-    "declaration, then assert, then check-sat, over the unfiltered sort and symbol sets (R4); every "
-    "symbol or sort name that reaches the output passes quote() (R5, taint); let-names avoid user "
-    "symbols (R6).")
-NOT_DECIDED = ["'same value under every interpretation' beyond operator spelling, argument order and constants"]
+    "Abstract interpretation of the export path - smtlibscript_from_formula (logic detection by the "
+    "oracles, sort and symbol declarations), SmtLibScript.serialize / SmtLibCommand.serialize, SmtPrinter, "
+    "SmtDagPrinter and to_smtlib, with typing.as_smtlib and utils.quote - on ~125 concrete operator "
+    "skeletons in tree and let-DAG form: every operator, constants of every kind (negative, rational, "
+    "integer-valued Real, bit-vectors of width 1/8/9, strings with quotes), arrays and constant arrays, "
+    "uninterpreted functions, plain and parametric user sorts, quantifiers with sharing across the binder, "
+    "symbol / sort names that need quoting, are reserved words or collide with the printer's own let names. "
+    "The text the interpreted printer wrote is read by an independent reader of SMT-LIB 2.6 (sa/refsmt.py, "
+    "written from the standard): it must be well-formed - every sort and symbol declared before use and once, "
+    "well-sorted, simultaneous let, binder scoping - and its single assertion must denote the skeleton: "
+    "structurally equal after let-expansion, or equal in value under every assignment over small domains "
+    "(R9).  Exhaustive dispatch of both printers over the operator universe (R0).")
+NOT_DECIDED = ["formulas outside the skeleton menu (deeper nesting, other constants): the rule decides the menu, "
+               "which covers every operator, every constant kind and every naming hazard listed above",
+               "denotation of array-valued terms is compared structurally only (no array model in the evaluator)"]
 
-
-def _str_consts(node):
-    return [n.value for n in ast.walk(node) if isinstance(n, ast.Constant) and isinstance(n.value, str)]
-
-
-def extract_name(repo, cls, h, opname, ops):
-    """Returns ('nary', name) | ('indexed', ident, [accessors]) | ('template', first token) |
-    ('special',) | None for the handler of operator opname in printer cls."""
-    f = h.func
-    # 1. return self.walk_nary(formula, [args,] "name")
-    rets = [n for n in ast.walk(f) if isinstance(n, ast.Return) and isinstance(n.value, ast.Call)]
-    for r in rets:
-        if attr_tail(r.value) == "walk_nary":
-            last = r.value.args[-1]
-            if isinstance(last, ast.Constant) and isinstance(last.value, str):
-                return ("nary", last.value)
-            return ("nary-dynamic", norm(last))
-        if attr_tail(r.value) == "_walk_quantifier":
-            a0 = r.value.args[0]
-            if isinstance(a0, ast.Constant):
-                return ("nary", a0.value)
-    # 2. indexed identifiers: "(_ extract %d %d)" % (acc1, acc2)   /  "((_ %s %d)" % (kind, acc)
-    for n in ast.walk(f):
-        if isinstance(n, ast.BinOp) and isinstance(n.op, ast.Mod) and isinstance(n.left, ast.Constant) \
-                and isinstance(n.left.value, str) and "(_ " in n.left.value:
-            fmt = n.left.value
-            vals = n.right.elts if isinstance(n.right, ast.Tuple) else [n.right]
-            vals = [v for v in vals if not (isinstance(v, ast.Name) and v.id == "sym")]
-            m = re.search(r"\(_ (\S+)((?: %d)+)\)", fmt)
-            if not m:
-                continue
-            ident = m.group(1)
-            accs = []
-            rest = list(vals)
-            if ident == "%s":
-                # the identifier is chosen by a predicate on the node
-                var = rest.pop(0)
-                ident = _resolve_choice(f, var, opname)
-            for v in rest:
-                if isinstance(v, ast.Call) and norm(v.func.value) == "formula":
-                    accs.append(v.func.attr)
-                else:
-                    accs.append("?" + norm(v))
-            return ("indexed", ident, accs)
-    # 2b. "(let ((%s (%s" % (sym, "str.++ ")  : operator passed as a constant format argument
-    for n in ast.walk(f):
-        if isinstance(n, ast.BinOp) and isinstance(n.op, ast.Mod) and isinstance(n.left, ast.Constant) \
-                and isinstance(n.left.value, str) and n.left.value.startswith("(let ((%s (%s") and \
-                isinstance(n.right, ast.Tuple) and len(n.right.elts) == 2 and isinstance(n.right.elts[1], ast.Constant):
-            return ("template", n.right.elts[1].value.strip())
-    # 3. literal templates: first string constant written / returned that starts with '('
-    for s in _str_consts(f):
-        t = s.strip()
-        if t.startswith("("):
-            body = t[1:].strip()
-            if body.startswith("let "):
-                continue
-            tok = body.split()[0] if body.split() else ""
-            if tok and tok not in ("%s", "(%s", "store", "(as"):
-                return ("template", tok)
-    return None
-
-
-def _resolve_choice(f, var, opname):
-    """`if formula.is_bv_ror(): rotate_type = "rotate_right" else: ... "rotate_left"`"""
-    if not isinstance(var, ast.Name):
-        return "?"
-    pred = "is_" + opname.lower()
-    for n in ast.walk(f):
-        if isinstance(n, ast.If) and isinstance(n.test, ast.Call) and norm(n.test.func.value) == "formula":
-            def assigned(stmts):
-                for s in stmts:
-                    if isinstance(s, ast.Assign) and norm(s.targets[0]) == var.id and isinstance(s.value, ast.Constant):
-                        return s.value.value
-                return None
-            a, b = assigned(n.body), assigned(n.orelse)
-            other_pred = None
-            for s in n.orelse:
-                if isinstance(s, ast.Assert) and isinstance(s.test, ast.Call):
-                    other_pred = s.test.func.attr
-            if n.test.func.attr == pred:
-                return a
-            if other_pred == pred or other_pred is None:
-                return b
-    return "?"
+# names equal to function symbols of the SMT-LIB theories cannot be declared at all (quoting does not help:
+# |and| is the symbol and); exporting them needs a renaming scheme pySMT does not have
+THEORY_NAME_SHAPES = ("And(and, Or(and, a), Not(Or(and, a)))", "And(true, Or(true, a), Not(Or(true, a)))")
 
 
 def run(ctx):
     repo, ops, ht = get_repo(), get_ops(), get_tables()
-    ctx.analysed["modules"] = ["pysmt/smtlib/printers.py", "pysmt/smtlib/script.py", "pysmt/typing.py", "pysmt/utils.py"]
-    extracted = {}
+    ctx.analysed["modules"] = ["pysmt/smtlib/printers.py", "pysmt/smtlib/script.py", "pysmt/typing.py", "pysmt/utils.py",
+                               "pysmt/oracles.py", "pysmt/logics.py", "pysmt/walkers/tree.py", "pysmt/walkers/dag.py"]
 
     if ctx.want("R0"):
         rs = ctx.rule("R0", "exhaustive dispatch of both printers")
@@ -119,357 +39,26 @@ def run(ctx):
         dispatch_rule(ctx, rs, DAGP, exempt=T.EXEMPT_PRINT)
         ctx.floor(rs, 120)
 
-    if ctx.want("R1") or ctx.want("R2"):
-        rs = ctx.rule("R1", "operator spelling / index order vs the SMT-LIB reference table")
-        for cls in (TREE, DAGP):
-            tab = ht.table(cls)
-            for o in ops:
-                nm = ops.name(o)
-                h = tab[o]
-                if h.is_error or h.func is None or nm in T.SPECIAL:
-                    continue
-                ex = extract_name(repo, cls, h, nm, ops)
-                extracted[(cls, nm)] = ex
-                key = "%s|%s" % (cls, nm)
-                if ex is None:
-                    rs.unrec("%s: output template of %s not recognised" % (cls.split(".")[-1], nm))
-                    continue
-                if nm in T.INDEXED:
-                    ident, accs = T.INDEXED[nm]
-                    if ex[0] != "indexed":
-                        rs.unrec("%s %s: expected an indexed identifier, extracted %s" % (cls.split(".")[-1], nm, ex))
-                    elif ex[1] == ident and ex[2] == accs:
-                        rs.ok({"printer": cls.split(".")[-1], "op": nm, "prints": "(_ %s %s)" % (ident, " ".join(accs))})
-                    else:
-                        ctx.finding(rs, key + "|indexed",
-                                    "%s prints %s as (_ %s %s); SMT-LIB requires (_ %s %s)"
-                                    % (cls.split(".")[-1], nm, ex[1], " ".join(ex[2]), ident, " ".join(accs)),
-                                    method_loc(repo, h.cls, h.func))
-                    continue
-                want = T.OP_NAMES.get(nm)
-                if want is None:
-                    rs.unrec("no reference spelling for %s" % nm)
-                    continue
-                if ex[0] in ("nary", "template"):
-                    if ex[1] in want:
-                        rs.ok({"printer": cls.split(".")[-1], "op": nm, "prints": ex[1]})
-                    else:
-                        ctx.finding(rs, key + "|spelling",
-                                    "%s prints operator %s as '%s'; SMT-LIB spelling is %s"
-                                    % (cls.split(".")[-1], nm, ex[1], sorted(want)), method_loc(repo, h.cls, h.func))
-                else:
-                    rs.unrec("%s %s: %s" % (cls.split(".")[-1], nm, ex))
-        ctx.floor(rs, 90)
-
-        rs2 = ctx.rule("R2", "the tree printer and the DAG printer agree operator by operator")
-        for o in ops:
-            nm = ops.name(o)
-            a, b = extracted.get((TREE, nm)), extracted.get((DAGP, nm))
-            if a is None or b is None:
-                continue
-            na = a[1:] if a[0] != "template" else a[1:]
-            nb = b[1:] if b[0] != "template" else b[1:]
-            if tuple(na) == tuple(nb):
-                rs2.ok({"op": nm, "both_print": list(na)})
+    if ctx.want("R9"):
+        rs = ctx.rule("R9", "exported text read by the independent reader: well-formed and denotes the skeleton")
+        from . import text_deep as td
+        res = td.export_results(repo, ctx.tier)
+        covered = set()
+        for r in res:
+            form = "let-DAG" if r["dag"] else "tree"
+            kind, detail = r["c07"]
+            covered |= set(r.get("ops", []))
+            if kind == "valid":
+                rs.ok({"skeleton": r["shape"], "form": form, "checked": detail})
+            elif kind in ("invalid", "raises"):
+                ctx.finding(rs, "export|%s" % r["shape"],
+                            "export of %s (%s form): %s%s" % (r["shape"], form, detail,
+                                                             (" [text: %s]" % r["text"].replace("\n", " ")[:300]) if r["text"] else ""),
+                            "pysmt/smtlib/printers.py")
             else:
-                ctx.finding(rs2, "%s|printers-disagree" % nm,
-                            "SmtPrinter prints %s as %s, SmtDagPrinter as %s" % (nm, a, b),
-                            method_loc(repo, ht.table(DAGP)[o].cls, ht.table(DAGP)[o].func))
-        ctx.floor(rs2, 45)
-
-    if ctx.want("R3"):
-        rs = ctx.rule("R3", "constants: sign outside / abs inside, #b padding to width, quote doubling")
-        for cls in (TREE, DAGP):
-            tab = ht.table(cls)
-            sh = cls.split(".")[-1]
-            # Int
-            f = tab[ops.id("INT_CONSTANT")].func
-            txt = norm(f)
-            if "formula.constant_value() < 0" in txt and "'(- ' + str(-formula.constant_value()) + ')'" in txt:
-                rs.ok({"printer": sh, "int": "(- n) for negatives"})
-            else:
-                rs.unrec("%s: " % cls.split(".")[-1] + "negative integers are not printed as (- n)")
-            # Real
-            f = tab[ops.id("REAL_CONSTANT")].func
-            txt = norm(f)
-            conds = ["formula.constant_value() < 0" in txt, "'(- %s)'" in txt,
-                     "abs(formula.constant_value().numerator)" in txt, "formula.constant_value().denominator" in txt,
-                     "'(/ ' + str(n) + '.0 ' + str(d) + '.0)'" in txt, "str(n) + '.0'" in txt]
-            if all(conds):
-                rs.ok({"printer": sh, "real": "(- (/ n.0 d.0)) with |n|"})
-            else:
-                rs.unrec("%s REAL_CONSTANT: rational constant printing deviates from (- (/ |n|.0 d.0)) [%s]" % (cls.split(".")[-1], conds))
-            # BV
-            f = tab[ops.id("BV_CONSTANT")].func
-            txt = norm(f)
-            if "'#b' + formula.bv_bin_str()" in txt or ("rjust(formula.bv_width(), filler)" in txt and "'#b' + res" in txt and "filler = '0'" in txt):
-                rs.ok({"printer": sh, "bv": "#b padded to the node's width"})
-            else:
-                rs.unrec("%s: " % cls.split(".")[-1] + "bit-vector literal is not #b padded to bv_width()")
-            # String
-            f = tab[ops.id("STR_CONSTANT")].func
-            txt = norm(f)
-            if "formula.constant_value().replace('\"', '\"\"')" in txt and txt.count("'\"'") >= 2:
-                rs.ok({"printer": sh, "string": "quotes doubled, wrapped in \"...\""})
-            else:
-                rs.unrec("%s STR_CONSTANT: " % cls.split(".")[-1] + "string literal quoting deviates from \"\" doubling")
-            # Bool
-            f = tab[ops.id("BOOL_CONSTANT")].func
-            iff = [n for n in ast.walk(f) if isinstance(n, ast.If)]
-            if iff and norm(iff[0].test) == "formula.constant_value()" and "true" in _str_consts(ast.Module(body=iff[0].body, type_ignores=[])) \
-                    and "false" in _str_consts(ast.Module(body=iff[0].orelse, type_ignores=[])):
-                rs.ok({"printer": sh, "bool": "true/false"})
-            else:
-                rs.unrec("%s: " % cls.split(".")[-1] + "Boolean constants are not printed true/false by value")
-        ctx.floor(rs, 10)
-
-    if ctx.want("R4"):
-        rs = ctx.rule("R4", "script from formula: set-logic < declare-sort* < declare-fun* < assert < check-sat")
-        m, f = repo.function("pysmt.smtlib.script.smtlibscript_from_formula")
-        cfg = CFG(f)
-        def cmdnode(word):
-            out = []
-            for n in cfg.nodes:
-                if n.ast is None or n.kind != "stmt":
-                    continue
-                for c in calls_in(n.ast):
-                    if attr_tail(c) in ("add", "add_command") and ("smtcmd.%s" % word) in norm(c):
-                        out.append(n)
-            return out
-        order = ["SET_LOGIC", "DECLARE_SORT", "DECLARE_FUN", "ASSERT", "CHECK_SAT"]
-        nodes = dict((w, cmdnode(w)) for w in order)
-        for w in order:
-            if not nodes[w]:
-                ctx.finding(rs, "smtlibscript_from_formula|missing|%s" % w,
-                            "the generated script never emits %s" % w.lower().replace("_", "-"), repo.loc(m, f))
-        for i in range(len(order) - 1):
-            a, b = order[i], order[i + 1]
-            bad = False
-            for nb in nodes[b]:
-                r = cfg.reachable(nb.id, follow=normal_only)
-                for later in order[:i + 1]:
-                    if any(x.id in r for x in nodes[later] if x.id != nb.id):
-                        bad = (later, b)
-            if bad:
-                ctx.finding(rs, "smtlibscript_from_formula|order|%s-after-%s" % (bad[0], bad[1]),
-                            "%s can be emitted after %s" % (bad[0], bad[1]), repo.loc(m, nodes[b][0].ast))
-            elif nodes[a] and nodes[b]:
-                rs.ok({"order": "%s before %s" % (a, b)})
-        # every path to return passes assert and check-sat
-        for w in ("ASSERT", "CHECK_SAT", "SET_LOGIC"):
-            if nodes[w] and cfg.must_pass(cfg.entry.id, cfg.ret.id, lambda n, w=w: n in nodes[w], follow=normal_only):
-                rs.ok({"always_emitted": w})
-            elif nodes[w]:
-                ctx.finding(rs, "smtlibscript_from_formula|skippable|%s" % w, "%s is not emitted on every path" % w,
-                            repo.loc(m, nodes[w][0].ast))
-        # unfiltered sets
-        loops = [n for n in ast.walk(f) if isinstance(n, ast.For)]
-        src = {}
-        for n in ast.walk(f):
-            if isinstance(n, ast.Assign) and isinstance(n.targets[0], ast.Name):
-                src[n.targets[0].id] = n.value
-        for lp in loops:
-            it = lp.iter
-            e = src.get(it.id) if isinstance(it, ast.Name) else it
-            txt = norm(e) if e is not None else ""
-            body = norm(lp)
-            if "DECLARE_SORT" in body:
-                if txt.endswith("typeso.get_types(formula, custom_only=True)"):
-                    rs.ok({"sorts_declared": txt})
-                else:
-                    ctx.finding(rs, "smtlibscript_from_formula|sort-set", "sorts declared range over %s" % txt, repo.loc(m, lp))
-                if not any(isinstance(s, ast.Expr) for s in lp.body) or any(isinstance(s, (ast.If, ast.Continue, ast.Break)) for s in lp.body):
-                    ctx.finding(rs, "smtlibscript_from_formula|sort-filter", "sort declarations are filtered", repo.loc(m, lp))
-            if "DECLARE_FUN" in body:
-                if txt == "formula.get_free_variables()":
-                    rs.ok({"symbols_declared": txt})
-                else:
-                    ctx.finding(rs, "smtlibscript_from_formula|symbol-set", "symbols declared range over %s" % txt, repo.loc(m, lp))
-                if any(isinstance(s, (ast.If, ast.Continue, ast.Break)) for s in lp.body):
-                    ctx.finding(rs, "smtlibscript_from_formula|symbol-filter", "symbol declarations are filtered", repo.loc(m, lp))
-        asserts = [c for c in calls_in(f) if attr_tail(c) == "SmtLibCommand" and "smtcmd.ASSERT" in norm(c)]
-        if asserts and "args=[formula]" in norm(asserts[0]):
-            rs.ok({"asserted": "formula"})
-        else:
-            rs.unrec("assert command argument")
-        ctx.floor(rs, 8)
-
-    if ctx.want("R5"):
-        rs = ctx.rule("R5", "every symbol / sort name reaching the output passes quote()")
-        sites = []
-        # (a) printers: every symbol_name() must be an argument of quote()
-        for cls in (TREE, DAGP):
-            ci = repo.cls(cls)
-            for nm in ci.order:
-                f = ci.own_func(nm)
-                if f is None:
-                    continue
-                par = parents(f)
-                for c in calls_in(f):
-                    if attr_tail(c) == "symbol_name":
-                        p = par.get(c)
-                        if isinstance(p, ast.Call) and attr_tail(p) == "quote" and c in p.args:
-                            rs.ok({"site": "%s.%s" % (cls.split(".")[-1], nm), "name": norm(p)})
-                        else:
-                            ctx.finding(rs, "%s.%s|unquoted|%s" % (cls, nm, norm(c)),
-                                        "%s writes %s without quote(): a symbol whose name needs |...| quoting "
-                                        "yields ill-formed SMT-LIB" % (nm, norm(c)), method_loc(repo, cls, c))
-        # (b) command serialisation: names written with %s
-        cls, f = repo.method(CMD, "serialize")
-        for n in ast.walk(f):
-            if not (isinstance(n, ast.If) and isinstance(n.test, ast.Compare)):
-                continue
-            which = norm(n.test)
-            for c in [x for s in n.body for x in calls_in(s)]:
-                if attr_tail(c) != "write" or not c.args or not isinstance(c.args[0], ast.BinOp):
-                    continue
-                fmt, vals = c.args[0].left, c.args[0].right
-                vals = vals.elts if isinstance(vals, ast.Tuple) else [vals]
-                env = {}
-                for s in n.body:
-                    if isinstance(s, ast.Assign) and isinstance(s.targets[0], ast.Name):
-                        env[s.targets[0].id] = s.value
-                for v in vals:
-                    e = env.get(v.id, v) if isinstance(v, ast.Name) else v
-                    t = norm(e)
-                    is_name = t.endswith(".symbol_name()") or (t.endswith(".name") and t != "self.name") or \
-                        (("DEFINE_FUN" in which or "DEFINE_SORT" in which) and t == "self.args[0]")
-                    if not is_name:
-                        continue
-                    if isinstance(e, ast.Call) and attr_tail(e) == "quote":
-                        rs.ok({"command": which, "name": t})
-                    elif isinstance(v, ast.Call) and attr_tail(v) == "quote":
-                        rs.ok({"command": which, "name": norm(v)})
-                    else:
-                        ctx.finding(rs, "%s.serialize|unquoted|%s|%s" % (CMD, which.split("smtcmd.")[-1].strip("[]) "), t),
-                                    "command serialisation writes the name %s raw (branch %s): names that are not "
-                                    "simple symbols produce ill-formed or different SMT-LIB" % (t, which),
-                                    method_loc(repo, cls, c))
-        # (c) sort syntax: custom sort names in PySMTType.as_smtlib
-        ty = repo.cls("pysmt.typing.PySMTType")
-        f = ty.own_func("as_smtlib")
-        if f is not None:
-            txt = norm(f)
-            uses_quote = "quote(" in txt
-            if uses_quote:
-                rs.ok({"PySMTType.as_smtlib": "quotes names"})
-            else:
-                ctx.finding(rs, "pysmt.typing.PySMTType.as_smtlib|unquoted|self.name",
-                            "custom sort names (self.name / self.basename) are written raw by as_smtlib: a sort "
-                            "named e.g. 'my sort' gives ill-formed declarations and uses", repo.loc(ty.module, f))
-        # quote() itself escapes
-        m, q = repo.function("pysmt.utils.quote")
-        if "_simple_symbol_prog.match(name) is None" in norm(q) and "in _keywords" in norm(q):
-            rs.ok({"quote": "quotes everything that is not a simple symbol, and keywords"})
-        else:
-            rs.unrec("quote() body changed")
-        ctx.floor(rs, 8)
-
-    if ctx.want("R6"):
-        rs = ctx.rule("R6", "let names avoid user symbols; nested quantifier bodies get a fresh printer")
-        ci = repo.cls(DAGP)
-        f = ci.own_func("_new_symbol")
-        if f is None:
-            ctx.error("R6", "SmtDagPrinter._new_symbol vanished")
-        else:
-            # Every candidate name that is returned must have been tested against self.names with a
-            # negative outcome, and the seed must not move between that test and the use: in the CFG
-            # without the false-edges of membership tests the statement computing the result must
-            # be unreachable from the entry and from every seed update.
-            cfg = CFG(f)
-            def is_member_test(n):
-                return n.kind == "test" and isinstance(n.ast, ast.Compare) and len(n.ast.ops) == 1 and \
-                    isinstance(n.ast.ops[0], (ast.In, ast.NotIn)) and "self.names" in norm(n.ast.comparators[0]) and \
-                    "name_seed" in norm(n.ast.left)
-            tests = [n for n in cfg.nodes if is_member_test(n)]
-            uses = [n for n in cfg.nodes if n.kind == "stmt" and isinstance(n.ast, ast.Assign) and
-                    "name_seed" in norm(n.ast.value) and "template" in norm(n.ast.value)]
-            incs = [n for n in cfg.nodes if n.kind == "stmt" and isinstance(n.ast, ast.AugAssign) and "name_seed" in norm(n.ast.target)]
-            if not tests or not uses:
-                rs.unrec("_new_symbol: membership test / candidate computation not recognised")
-            else:
-                def pruned_reach(src):
-                    seen, st = set(), [src]
-                    while st:
-                        x = st.pop()
-                        if x in seen:
-                            continue
-                        seen.add(x)
-                        for (y, lab) in cfg.succ[x]:
-                            nd = cfg.nodes[x]
-                            if is_member_test(nd):
-                                free = "F" if isinstance(nd.ast.ops[0], ast.In) else "T"
-                                if lab == free:
-                                    continue      # the only way out that certifies the candidate
-                            st.append(y)
-                    return seen
-                bad = None
-                r0 = pruned_reach(cfg.entry.id)
-                if any(u.id in r0 for u in uses):
-                    bad = "a candidate can be used without a negative membership test"
-                for i in incs:
-                    # updates after the use (the final seed advance) are fine; updates before it must be re-tested
-                    if any(u.id in pruned_reach(i.id) for u in uses):
-                        bad = "after advancing the seed the new candidate is used without being tested (`if` instead of a loop)"
-                if bad:
-                    ctx.finding(rs, "%s._new_symbol|untested-candidate" % DAGP,
-                                "let-variable names: %s; a user symbol named like the next candidate (.def_N) is captured "
-                                "by the let binder" % bad, method_loc(repo, DAGP, f))
-                else:
-                    rs.ok({"_new_symbol": "every returned candidate was tested not to be in self.names"})
-        f = ci.own_func("printer")
-        if f is not None and "self.names = set((quote(x.symbol_name()) for x in f.get_free_variables()))" in norm(f):
-            rs.ok({"printer": "names initialised from the quoted free variables of the printed term"})
-        else:
-            rs.unrec("printer(): initialisation of self.names not in the recognised form")
-        f = ci.own_func("_walk_quantifier")
-        if f is not None and "SmtDagPrinter(self.stream" in norm(f) and "subprinter.printer(formula.arg(0))" in norm(f):
-            rs.ok({"_walk_quantifier": "body printed by a fresh sub-printer"})
-        else:
-            rs.unrec("_walk_quantifier sub-printer")
-        # closings balance openings
-        f = ci.own_func("printer")
-        if f is not None and "self.write(')' * self.openings)" in norm(f):
-            rs.ok({"printer": "closes every let opened"})
-        else:
-            rs.unrec("closing parentheses")
-        ctx.floor(rs, 3)
-
-    if ctx.want("R5b"):
-        rs = ctx.rule("R5b", "sort syntax: user-defined sort names are quoted wherever they are printed (interpreted)")
-        from ..absint import Interp, Explorer, Unsupported
-        from ..world import World
-        cases = [("my sort", 0, [], False, "|my sort|"), ("my sort", 0, [], True, "() |my sort|"),
-                 ("my sort", 1, ["INT"], False, "(|my sort| Int)"), ("my sort", 2, ["INT", "BOOL"], False, "(|my sort| Int Bool)"),
-                 ("Elem", 0, [], False, "Elem"), ("Pair", 1, ["REAL"], False, "(Pair Real)"),
-                 ("a|b", 0, [], False, "|a\\|b|")]
-        for name, arity, params, funstyle, want in cases:
-            def one(ex, name=name, arity=arity, params=params, funstyle=funstyle):
-                it = Interp(ex)
-                w = World().attach(it)
-                tm = w.env.attrs["_type_manager"]
-                decl = it.call(it.getattr(tm, "Type"), [name, arity])
-                ty = decl
-                if arity:
-                    args = [it.module_global(w.repo.modules["pysmt.typing"], p) for p in params]
-                    ty = it.call(it.getattr(tm, "get_type_instance"), [decl] + args)
-                return it.call(it.getattr(ty, "as_smtlib"), [], {"funstyle": funstyle})
-            try:
-                paths = Explorer(max_paths=20).run(one)
-            except Unsupported as e:
-                rs.unrec("as_smtlib(%r/%d): %s" % (name, arity, e))
-                continue
-            for p in paths:
-                if p.kind == "return" and isinstance(p.value, str):
-                    if p.value == want:
-                        rs.ok({"sort": "%s/%d" % (name, arity), "printed": p.value})
-                    else:
-                        ctx.finding(rs, "pysmt.typing.PySMTType.as_smtlib|sort-syntax|%s/%d|%s" % (name, arity, funstyle),
-                                    "the sort %r (arity %d) is printed as `%s`; well-formed SMT-LIB is `%s`"
-                                    % (name, arity, p.value, want), "pysmt/typing.py")
-                elif p.kind == "raise":
-                    rs.unrec("as_smtlib(%r/%d) raises %s" % (name, arity, p.value.cls_name))
-                else:
-                    rs.unrec("as_smtlib(%r/%d): %s" % (name, arity, str(p.value)[:100]))
-        ctx.floor(rs, 5)
-
+                rs.unrec("%s (%s): %s" % (r["shape"], form, detail[:160]))
+        missing = [ops.name(o) for o in ops if ops.name(o) not in covered and ops.name(o) not in T.EXEMPT_PRINT]
+        ctx.analysed["operators_covered_by_skeletons"] = len(covered)
+        if missing:
+            rs.unrec("operators not exercised by any skeleton: %s" % missing)
+        ctx.floor(rs, 200)
